@@ -160,7 +160,51 @@ def check(kind):
         @deal.pre(lambda x: True)
         def sm(x): return x
     k = K()
+    # callables whose __wrapped__ chain ends in a function of another kind: a context manager (generator below), a generator collected into a
+    # list, a coroutine run to completion
+    import contextlib, functools
+    def collect(fn):
+        @functools.wraps(fn)
+        def w(*a, **kw): return list(fn(*a, **kw))
+        return w
+    def complete(fn):
+        @functools.wraps(fn)
+        def w(*a, **kw): return asyncio.run(fn(*a, **kw))
+        return w
+    def make(with_contracts):
+        deco = (lambda fn: deal.pre(lambda *a, **kw: True)(deal.post(lambda r: True)(fn))) if with_contracts else (lambda fn: fn)
+        @deco
+        @contextlib.contextmanager
+        def cm(x):
+            yield x + 1
+        @deco
+        @collect
+        def gl(x):
+            yield x
+            yield x + 1
+        @deco
+        @complete
+        async def co(x):
+            return x * 2
+        return cm, gl, co
+    def use(fns):
+        cm, gl, co = fns
+        out = []
+        for fn, how in ((cm, "with"), (gl, "call"), (co, "call")):
+            try:
+                if how == "with":
+                    with fn(1) as v: out.append(("ok", v))
+                else:
+                    out.append(("ok", fn(1)))
+            except BaseException as e:
+                out.append(("exc", type(e).__name__))
+        return out
+    kinds_kept = use(make(True)) == use(make(False))
+    deal.disable()
+    try: kinds_kept_disabled = use(make(True)) == use(make(False))
+    finally: deal.enable()
     return {
+        "wrapped_other_kind": kinds_kept, "wrapped_other_kind_disabled": kinds_kept_disabled,
         "name": d.__name__ == f.__name__, "qualname": d.__qualname__ == f.__qualname__, "doc": d.__doc__ == f.__doc__,
         "wrapped": d.__wrapped__ is f, "signature": str(inspect.signature(d)) == str(inspect.signature(f)),
         "coroutine": inspect.iscoroutinefunction(d) == inspect.iscoroutinefunction(f),
